@@ -238,7 +238,12 @@ func init() {
 			}
 			// held until after the call: release must be deferred or come after
 			rel := push.Release
-			relOK := rel != nil && (push.Defer || !prog.MayPrecede(rel, p.PushCall))
+			relOK := rel != nil
+			for _, r := range push.explicitReleases() {
+				if prog.MayPrecede(r, p.PushCall) {
+					relOK = false
+				}
+			}
 			x.check(relOK, key+" release", x.pos(push.Call), "the push lock is released after the append", "the push lock can be released before the append")
 			// the doc-info read used for the epoch/removed tests happens under the lock
 			for _, c := range callsToIn(fn, p.FindDocByRef) {
